@@ -1,15 +1,16 @@
 package main
 
-// knownZero computes, syntactically, a mask of bits of an integer term that are zero for
-// every valuation. Used by the integer back-end to emit  a | b  as  a + b  when the operands
-// cannot have a one in the same position (byte reassembly, varints, bit packing).
+// knownZero computes, syntactically, a mask of bits of an integer term that are zero for every
+// valuation. Used (a) by the term constructors to fold masks that select only known-zero bits
+// (e.g. time.Time's hasMonotonic flag of a wall value built from a 30-bit nanosecond field), and
+// (b) by the integer back-end to emit  a | b  as  a + b  when the operands cannot overlap.
 
-func (s *Solver) knownZero(t *Term) uint64 {
+func (tb *TB) knownZero(t *Term) uint64 {
 	if t.T.K != KInt {
 		return 0
 	}
-	if v, ok := s.kz[t.id]; ok {
-		return v
+	if t.kzSet {
+		return t.kz
 	}
 	m := mask(t.T.W)
 	var r uint64
@@ -17,16 +18,16 @@ func (s *Solver) knownZero(t *Term) uint64 {
 	case OpConst:
 		r = ^t.V
 	case OpAnd:
-		r = s.knownZero(t.A) | s.knownZero(t.B)
+		r = tb.knownZero(t.A) | tb.knownZero(t.B)
 	case OpOr, OpXor:
-		r = s.knownZero(t.A) & s.knownZero(t.B)
+		r = tb.knownZero(t.A) & tb.knownZero(t.B)
 	case OpShl:
 		if t.B.IsConst() {
 			k := t.B.V
 			if k >= uint64(t.T.W) {
 				r = ^uint64(0)
 			} else {
-				r = (s.knownZero(t.A) << k) | ((uint64(1) << k) - 1)
+				r = (tb.knownZero(t.A) << k) | ((uint64(1) << k) - 1)
 			}
 		}
 	case OpShr:
@@ -35,28 +36,45 @@ func (s *Solver) knownZero(t *Term) uint64 {
 			if k >= uint64(t.T.W) {
 				r = ^uint64(0)
 			} else {
-				r = (s.knownZero(t.A) >> k) | ^(mask(t.T.W) >> k)
+				r = (tb.knownZero(t.A) >> k) | ^(mask(t.T.W) >> k)
 			}
 		}
 	case OpConv:
 		a := t.A
 		if a.T.K == KInt {
 			if !a.T.S || a.T.W >= t.T.W {
-				// zero extension or truncation: low bits carry over, bits above the source width are zero
-				r = s.knownZero(a) & mask(a.T.W)
+				r = tb.knownZero(a) & mask(a.T.W)
 				if a.T.W < t.T.W && !a.T.S {
 					r |= ^mask(a.T.W)
 				}
 			}
 		}
 	case OpIte:
-		r = s.knownZero(t.B) & s.knownZero(t.C)
+		r = tb.knownZero(t.B) & tb.knownZero(t.C)
+	case OpRem:
+		// unsigned x % c  <  c
+		if !t.A.T.S && t.B.IsConst() && t.B.V > 0 {
+			r = ^((uint64(1) << uint(64-leadingZeros64(t.B.V-1))) - 1)
+			if t.B.V == 1 {
+				r = ^uint64(0)
+			}
+		}
 	}
 	r &= m
-	r |= ^m // bits above the width are not part of the value
-	if s.kz == nil {
-		s.kz = map[int]uint64{}
-	}
-	s.kz[t.id] = r
+	r |= ^m
+	t.kz, t.kzSet = r, true
 	return r
 }
+
+func leadingZeros64(x uint64) int {
+	n := 0
+	for i := 63; i >= 0; i-- {
+		if x>>uint(i)&1 == 1 {
+			break
+		}
+		n++
+	}
+	return n
+}
+
+func (s *Solver) knownZero(t *Term) uint64 { return s.tb.knownZero(t) }
